@@ -347,3 +347,43 @@ PROPERTIES["C03"] = {
                "Display of the observable, matching_by_mtu (needs a Database), IPv6 extension headers, payload class NonZero",
     "assumptions": ["E1 tracing stub", "E3 ttl_cache model", "E6 format stub", "check_ts_tcp stubbed to (None, None) (decided in C19)"],
 }
+
+# ------------------------------------------------------------------------------------------ C01
+def _pick(prop, names):
+    out = []
+    for h in PROPERTIES[prop]["harnesses"]:
+        if h["name"] in names:
+            out.append(dict(h))
+    return out
+
+_c01 = []
+for m in ["tcp", "http", "tls", "unified"]:
+    _c01.append(H(f"c01::{m}::c01_parse_packet_64", "quick" if m in ("tcp", "unified") else "thorough", f"{m}: parse_packet + detect_datalink_format on every buffer of 0..=64 bytes", "returns (no panic/overflow)"))
+for m in ["tcp", "http", "tls"]:
+    _c01.append(H(f"c01::filter_{m}::c01_raw_filter_64", "quick" if m == "tcp" else "thorough", f"{m}: raw_filter::apply on every buffer of 0..=64 bytes, no sub-filter and a deny port filter", "returns; no sub-filter admits"))
+_c01 += [
+    H("c01::c01_tcp_hash_source_ip_64", "quick", "hash_source_ip on every buffer of 0..=64 bytes", "returns"),
+    H("c01::c01_is_tls_traffic_16", "quick", "is_tls_traffic on every buffer of 0..=16 bytes", "returns; < 5 bytes false"),
+    H("c01::c01_http_complete_checks_24", "quick", "has_complete_headers, has_complete_data, looks_like_http2_response on every buffer of 0..=24 bytes", "return"),
+    H("c01::c01_http2_parse_frames_18", "quick", "Http2Parser::parse_frames on every buffer of 0..=18 bytes", "returns; frames consume <= bytes given"),
+]
+_c01 += _pick("C18", {"c18::tls::c18_valid_index_64", "c18::http::c18_valid_index_64"})
+_c01 += _pick("C03", {"c03::c03_opt_ws_4_last_byte", "c03::c03_opt_ws_4_kind_only", "c03::c03_opt_ws_4", "c03::c03_opt_ts_8_short", "c03::c03_opt_mss_8_short", "c03::c03_opt_ts_12_syn",
+                      "c03::c03_opt_mss_4", "c03::c03_opt_unknown_8", "c03::c03_opt_sack_12", "c03::c03_eol_pad0", "c03::c03_flag_shape", "c03::c03_ipv4_shape", "c03::c03_ipv6_shape"})
+_c01 += _pick("C08", {"c08::c08_step_b3_d5", "c08::c08_step_b5_d8", "c08::c08_fresh_d12", "c08::c08_fresh_d32"})
+_c01 += _pick("C17", {"c17::c17_settings_payload_23", "c17::c17_window_update_payload", "c17::c17_priority_payload"})
+_c01 += _pick("C15", {"c15::tcp::c15_agree_v4_64"})
+PROPERTIES["C01"] = {
+    "harnesses": _c01,
+    "explanation": "Totality (no panic, no overflow, termination within the unwinding bound - Kani's checks are on in every harness) of the byte-level entry layers by "
+                   "bounded model checking over every buffer up to the stated size: packet framing x4 crates, pre-parse filter x3, dispatch hashes x3, TLS record "
+                   "detection and reader buffering, HTTP completeness probes, the HTTP/2 frame splitter, the Akamai payload decoders, and the TCP header walk in "
+                   "the shapes of C03 (which found the WSCALE panic D1).",
+    "functions": ["packet_parser::{parse_packet, detect_datalink_format} x4", "raw_filter::apply x3", "packet_hash::{hash_source_ip, hash_flow} x3", "tls_process::is_tls_traffic",
+                  "TlsClientHelloReader::add_bytes", "http1_process::has_complete_headers", "http2_process::{has_complete_data, looks_like_http2_response}", "Http2Parser::parse_frames",
+                  "akamai_extractor::parse_*_payload", "tcp_process::process_tcp_ipv4/ipv6 (visit_tcp)"],
+    "bounds": "buffers <= 64 bytes (framing, filter, hash), <= 24 (HTTP probes), <= 18 (frame splitter); TCP options: one option in last position; reader: <= 16+16 bytes",
+    "outside": "Http1Parser, HPACK, tls-parser, Database::from_str (HashMap/strings: not encodable), the 'no poison' clause for the analyzers that sit on them, worker threads, buffers above the bounds, "
+               "TCP option sequences with symbolic kinds in the middle",
+    "assumptions": ["E1", "E3", "E6", "parse_tls_client_hello and check_ts_tcp stubbed where stated"],
+}
